@@ -110,6 +110,25 @@ Theorem C20_served_is_stored : forall O d ml url,
 Proof. exact served_is_stored. Qed.
 Print Assumptions C20_served_is_stored.
 
+(* commit-hash requests: the version the archive is looked up under is the requested string
+   itself or a version of the module list, of that path, whose NON-EMPTY hash (suffix of a
+   pseudo-version, Short field of .info) is a prefix of the request or has it as a prefix *)
+Theorem C20_hash_resolution_sound : forall O d ml path vers,
+  target_version O d ml path vers = vers \/
+  (allhex vers = true /\ In (path, target_version O d ml path vers) ml /\
+   version_hash O d path (target_version O d ml path vers) <> [] /\
+   hash_matches (version_hash O d path (target_version O d ml path vers)) vers = true).
+Proof. exact hash_resolution_sound. Qed.
+Print Assumptions C20_hash_resolution_sound.
+
+(* a hash that matches no stored version is looked up literally (and is 404 unless a version
+   with that very name is stored: C20_not_stored_404) *)
+Theorem C20_hash_no_match : forall O d ml path vers,
+  (forall v, In (path, v) ml -> hash_matches (version_hash O d path v) vers = false) ->
+  target_version O d ml path vers = vers.
+Proof. exact hash_no_match. Qed.
+Print Assumptions C20_hash_no_match.
+
 (* any interleaving of the handlers of any requests (cache operations atomic and once per key:
    the specification of par.Cache.Do, property C10): every finished request holds the response
    of a fresh server, provided the requests do not alias one archive under two names *)
